@@ -105,6 +105,7 @@ var (
 )
 
 func decodeStreamUnmarshaler(s *Stream, depth int64, unmarshaler json.Unmarshaler) error {
+	s.skipWhiteSpace()
 	start := s.cursor
 	if err := s.skipValue(depth); err != nil {
 		return err
@@ -120,6 +121,7 @@ func decodeStreamUnmarshaler(s *Stream, depth int64, unmarshaler json.Unmarshale
 }
 
 func decodeStreamUnmarshalerContext(s *Stream, depth int64, unmarshaler unmarshalerContext) error {
+	s.skipWhiteSpace()
 	start := s.cursor
 	if err := s.skipValue(depth); err != nil {
 		return err
@@ -177,6 +179,7 @@ func decodeUnmarshalerContext(ctx *RuntimeContext, buf []byte, cursor, depth int
 }
 
 func decodeStreamTextUnmarshaler(s *Stream, depth int64, unmarshaler encoding.TextUnmarshaler, p unsafe.Pointer) error {
+	s.skipWhiteSpace()
 	start := s.cursor
 	if err := s.skipValue(depth); err != nil {
 		return err
